@@ -681,6 +681,10 @@ pub fn handles(rng: &mut Rng) -> Program {
         let n = g.rng.range(1, 3);
         a.started = rand_sstep_timers(g.rng, n);
     }
+    // a start-up that takes a while: handles are dropped and weak ones upgraded while started() is still suspended
+    if g.rng.chance(1, 5) {
+        a.started.insert(0, SStep::Sleep(*g.rng.pick(&[1u64, 2, 3, 5])));
+    }
     g.prog.actors.push(a);
     g.layout(nclients);
     let mut w = W::zero();
